@@ -134,6 +134,15 @@ DED["C07"] = ("Network.run_routing_backward under C06's certificate (predecessor
               "forward loop.",
               "every GEOMETRY clause (edge polylines chained end to end, oriented along the travel, junction vertices not repeated, starting at the "
               "source's position) is bounded only: Track.copy / reverse / > / + are opaque in this contract; termination of the walk is not proved.")
+DED["C02"] = ("25 operator classes against their documented pointwise definitions written independently of the code (Adder, Substracter, "
+              "Multiplier, Divider with x/0 = NaN, Above, Below, PointwiseEqualer; ScalarAdder, ScalarSubstracter, ScalarRevSubstracter, "
+              "ScalarMuliplier, Scalar(Rev)Below / Above; Differentiator, Forward / Backward / Centered / SecondOrder finite differences with "
+              "NaN at the ends; Inverter, Square, Diode, Rectifier, Sign through the generic APPLY loop and their own lambda): for every track "
+              "size and every value incl. NaN and zeros the returned list holds the documented value at every index, is stored under the "
+              "output name (created if absent), and every other column, coordinate and observation is unchanged.",
+              "the expression parser (makeRPN, string rewriting, precedence / associativity / parentheses), __evaluateRPN / __applyOperation "
+              "dispatch, '=' handling, aggregate operators, shifts and the remaining operator classes: bounded only (unbounded string "
+              "recursion is outside any contract within reach).")
 for i, b, n in [
     ("C01", "all histories of feature operations to a depth bound over a colliding name alphabet, random longer ones; run-time contract = abstract name->column map", ""),
     ("C02", "all expression trees to depth 3 over a small alphabet, random to depth 6, vectors with 0, negatives, ties, NaN; oracle = ordinary arithmetic under the documented operator table", ""),
